@@ -28,7 +28,7 @@ Definition obs_equiv (a b : obs) : bool :=
      | _ => true
      end.
 
-Definition with_obs (c : wcase) (o : obs) : wcase := mkW (w_id c) (w_scn c) (w_lookups c) o.
+Definition with_obs (c : wcase) (o : obs) : wcase := mkW (w_id c) (w_scn c) (w_lookups c) o (w_x c).
 
 Definition check_case (c : pcase) : bool :=
   wcheck (p_base c) && forallb (fun o => wcheck (with_obs (p_base c) o)) (p_others c).
